@@ -49,6 +49,7 @@ type FilePhys struct {
 	ColumnOrders bool          `json:"column_orders,omitempty"`
 	RGExtras     bool          `json:"rg_extras,omitempty"` // RowGroup fields 5..7 of newer parquet.thrift
 	FieldIDs     bool          `json:"field_ids,omitempty"`
+	CreatedByLen int           `json:"created_by_len,omitempty"` // > 0: created_by is a string of exactly this many bytes (used to steer the footer length)
 	Inject       *Inject       `json:"inject,omitempty"`
 }
 
@@ -247,6 +248,10 @@ func WriteFile(root *vt.Node, batches [][]*vt.Val, phys *FilePhys) ([]byte, erro
 	meta.Schema = schemaElements(root, phys.FieldIDs)
 	if phys.CreatedBy {
 		s := "verifharness foreign writer (build 1)"
+		meta.CreatedBy = &s
+	}
+	if phys.CreatedByLen > 0 {
+		s := string(bytes.Repeat([]byte("v"), phys.CreatedByLen))
 		meta.CreatedBy = &s
 	}
 	if phys.KV {
